@@ -4,13 +4,17 @@ CONSTANTS
   Dts <- DtsQ
   Targets <- TargQ
   TsTargets <- TargV
-  MaxTs = 2
-  PublicQueue = FALSE
+  MaxTs = 1
+  MaxSweeps = 0
+  MaxQueued = 2
+  PublicQueue = TRUE
+  DtChangeQueued = FALSE
+  FixQ = FALSE
   LeftRenormSite = 0
   FlipWrap = TRUE
   Ls <- LsAll
   Record = FALSE
-  SimLen = 3
+  SimLen = 4
 INVARIANT TimeExact
 INVARIANT QueueDrained
 INVARIANT ProductFormula
